@@ -919,6 +919,9 @@ func (c *e1ctx) discharge(s *e1.Site) (string, bool) {
 		if r, ok := c.ruleKind(s); ok {
 			return r, true
 		}
+		if r, ok := c.ruleWrapper(s); ok {
+			return r, true
+		}
 	case "P1":
 		if r, ok := c.ruleWriterPanic(s); ok {
 			return r, true
@@ -2858,4 +2861,84 @@ func rowLiteralLen(p *load.Prog, v ssa.Value, depth int) (int64, bool) {
 		return min, min >= 0
 	}
 	return 0, false
+}
+
+// ruleWrapper (R-wrapper): a reflect call with a precondition (Value.IsNil, ...) in an unexported helper that does
+// nothing to its operand but forward one of its own parameters - `func isNilX(x I) bool { return reflect.ValueOf(x).IsNil() }`.
+// The precondition is then a requirement on what the callers hand over, and the obligation belongs to them: it is
+// discharged here only when every call site of the helper is a static call in a function for which the same
+// obligation ("P4 <shape> in <caller>") has a reviewed table entry (with its coded side condition, if any, holding).
+// A caller without such an entry leaves the site undischarged. The helper must not be used as a value.
+func (c *e1ctx) ruleWrapper(s *e1.Site) (string, bool) {
+	call, ok := s.Instr.(ssa.CallInstruction)
+	if !ok {
+		return "", false
+	}
+	cal := call.Common().StaticCallee()
+	if cal == nil || cal.Signature.Recv() == nil || len(call.Common().Args) != 1 {
+		return "", false
+	}
+	fn := s.Fn
+	if fn.Parent() != nil || fn.Object() == nil || fn.Object().Exported() || fn.Signature.Recv() != nil {
+		return "", false
+	}
+	vo, ok := call.Common().Args[0].(*ssa.Call)
+	if !ok || !su.CalleeIs(&vo.Call, "reflect", "ValueOf") {
+		return "", false
+	}
+	arg := vo.Call.Args[0]
+	for {
+		switch a := arg.(type) {
+		case *ssa.MakeInterface:
+			arg = a.X
+			continue
+		case *ssa.ChangeInterface:
+			arg = a.X
+			continue
+		}
+		break
+	}
+	par, ok := arg.(*ssa.Parameter)
+	if !ok || par.Parent() != fn {
+		return "", false
+	}
+	if c.gAddrTaken(fn) {
+		return "", false
+	}
+	var callers []string
+	seen := map[*ssa.Function]bool{}
+	for _, f := range c.p.Repo {
+		for _, b := range f.Blocks {
+			for _, ins := range b.Instrs {
+				ci, ok := ins.(ssa.CallInstruction)
+				if !ok || ci.Common().StaticCallee() != fn {
+					continue
+				}
+				if _, isCall := ins.(*ssa.Call); !isCall {
+					return "", false // go / defer of the helper: not the plain forwarding this rule is about
+				}
+				if seen[f] {
+					continue
+				}
+				seen[f] = true
+				key := s.Class + " " + s.Shape + " in " + load.FuncName(f)
+				if _, has := c.table[key]; !has {
+					return "", false
+				}
+				if cond, has := tableSideConditions[key]; has {
+					if okc, _ := cond(c.p); !okc {
+						return "", false
+					}
+				}
+				c.used[key] = true
+				callers = append(callers, load.FuncName(f))
+			}
+		}
+	}
+	if len(callers) == 0 {
+		return "", false
+	}
+	sort.Strings(callers)
+	return fmt.Sprintf("R-wrapper: %s only forwards its parameter %s to the reflect call; the precondition is its callers', and each of the %d (%s) has a reviewed table entry for it: %s",
+		fn.Name(), par.Name(), len(callers), strings.Join(callers, ", "), c.table[s.Class+" "+s.Shape+" in "+callers[0]]), true
 }
